@@ -436,6 +436,37 @@ def rules(chk: Check) -> None:
                    f"{ci.name} overrides decompactify, so it must override the inverse map compactify "
                    "(the inherited one inverts the base-class map)", "compactify" in ci.methods,
                    f"{ci.name}.compactify is inherited from Grid", key=f"override|{ci.name}")
+    # the overriding inverse must invert the class's own map: its root function is self.decompactify(chi, ...)[0] - target,
+    # the momentum directions are delegated to Grid.compactify (closed forms, proved inverse in R17.2) and the momentum maps are Grid's
+    for g in GRIDS[1:]:
+        ci = S.cls(g)
+        fcomp = ci.methods.get("compactify")
+        if fcomp is None:
+            continue
+        chk.touch(fcomp.name)
+        roots = [c_ for c_ in own_nodes(fcomp.node) if isinstance(c_, ast.Call) and (dotted(c_.func) or "").split(".")[-1] in ("brentq", "root_scalar", "bisect", "newton")]
+        okr = False
+        for r_ in roots:
+            fn_ = r_.args[0] if r_.args else None
+            if isinstance(fn_, ast.Lambda):
+                calls_ = [c_ for c_ in ast.walk(fn_.body) if isinstance(c_, ast.Call) and dotted(c_.func) == "self.decompactify"]
+                subs_ = [x_ for x_ in ast.walk(fn_.body) if isinstance(x_, ast.Subscript) and isinstance(x_.value, ast.Call) and dotted(x_.value.func) == "self.decompactify"
+                         and isinstance(x_.slice, ast.Constant) and x_.slice.value == 0]
+                lam_arg = fn_.args.args[0].arg if fn_.args.args else None
+                okr = bool(calls_) and bool(subs_) and isinstance(calls_[0].args[0], ast.Name) and calls_[0].args[0].id == lam_arg \
+                    and isinstance(fn_.body, ast.BinOp) and isinstance(fn_.body.op, ast.Sub)
+        chk.ob("R17.7", fcomp.where(), f"{ci.name}.compactify solves self.decompactify(chi, ., .)[0] == z for chi (it inverts the class's own position map)",
+               okr, key=f"inverse-of-own-map|{ci.name}")
+        sup = [c_ for c_ in own_nodes(fcomp.node) if isinstance(c_, ast.Call) and isinstance(c_.func, ast.Attribute) and c_.func.attr == "compactify"
+               and isinstance(c_.func.value, ast.Call) and dotted(c_.func.value.func) == "super"]
+        rets = [r_ for r_ in own_nodes(fcomp.node) if isinstance(r_, ast.Return)]
+        oks = len(sup) == 1 and len(rets) == 1 and isinstance(rets[0].value, ast.Tuple) and len(rets[0].value.elts) == 3
+        chk.ob("R17.7", fcomp.where(), f"{ci.name}.compactify delegates the momentum directions to Grid.compactify and returns three components", oks,
+               key=f"momentum-delegated|{ci.name}")
+        d3_, _, _, _ = maps[g]
+        dg_, _, _, _ = maps["grid:Grid"]
+        okm = all(is_zero(d3_[i] - dg_[i], chk.seed)[0] for i in (1, 2))
+        chk.ob("R17.7", fcomp.where(), f"{ci.name} uses Grid's momentum maps unchanged, so Grid's closed-form momentum inverses apply", okm, key=f"momentum-maps|{ci.name}")
     # callers of compactify on a Grid3Scales (informational)
     users = []
     for fi in S.all_funcs():
@@ -449,7 +480,7 @@ def rules(chk: Check) -> None:
     chk.floor("R17.4", 7)
     chk.floor("R17.5", 8)
     chk.floor("R17.6", 8)
-    chk.floor("R17.7", 1)
+    chk.floor("R17.7", 4)
 
 
 def _asserts_tail_bounds(fu) -> bool:
